@@ -21,8 +21,11 @@ if $applies; then
     tests="passed=$p failed=$f"
     R=""; for r in run.sh run_demo.sh confirm.sh; do [ -f "$SD/demo/$r" ] && R=$r; done
     if [ -n "$R" ]; then chmod +x "$SD/demo/$R"
-      (cd "$SD/demo" && timeout 1200 ./$R "$W" >/tmp/confirm-$ID.demo_with.log 2>&1); demo_with="exit=$?"
-      if [ -d "$BASE/target/debug" ]; then (cd "$SD/demo" && timeout 1200 ./$R "$BASE" >/tmp/confirm-$ID.demo_without.log 2>&1); demo_without="exit=$?"; fi
+      # three conventions among the seed authors: worktree argument, INCAN=<binary> in the environment, binary argument
+      A1="$W"; A2="$BASE"
+      if grep -q "usage: [a-z_]*.sh /path/to/incan" "$SD/demo/$R"; then A1="$W/target/debug/incan"; A2="$BASE/target/debug/incan"; fi
+      (cd "$SD/demo" && INCAN="$W/target/debug/incan" CARGO_NET_OFFLINE=true timeout 2400 ./$R "$A1" >/tmp/confirm-$ID.demo_with.log 2>&1); demo_with="exit=$?"
+      if [ -d "$BASE/target/debug" ]; then (cd "$SD/demo" && INCAN="$BASE/target/debug/incan" CARGO_NET_OFFLINE=true timeout 2400 ./$R "$A2" >/tmp/confirm-$ID.demo_without.log 2>&1); demo_without="exit=$?"; fi
     fi
   fi
 fi
